@@ -387,6 +387,11 @@ func (runInfo *runInfoStruct) makeCallArgs(rt reflect.Type, isRunVMFunction bool
 	}
 	// number of expressions
 	numExprs := len(callExpr.SubExprs)
+	if callExpr.VarArg && numExprs < 1 {
+		runInfo.err = newStringError(callExpr, "call is variadic but has no argument to spread")
+		runInfo.rv = nilValue
+		return nil, false
+	}
 	if numIn < 1 {
 		// no arguments needed
 		if numExprs > 0 && !callExpr.VarArg {
